@@ -457,6 +457,14 @@ def op_take(rng, inp):
         start = -1 if allow_fill else rng.randint(-min(n, 3), -1)
         ix = list(range(start, start + rng.randint(2, min(n, 4) + 1)))
         ix = [j for j in ix if j < n]
+    if n >= 4 and rng.random() < 0.2:
+        # a permutation of a run of positions with its end points in place and the middle NOT in order (what sorting rows whose
+        # smallest key is first and largest last asks for): looks like a contiguous run to a test of the end points
+        a, b = 0, rng.randint(3, n - 1)
+        mid = list(range(a + 1, b))
+        while mid == sorted(mid):
+            rng.shuffle(mid)
+        ix = [a] + mid + [b]
     fill_t = None
     fill_kind = "none"
     if allow_fill and rng.random() < 0.6:
@@ -587,9 +595,11 @@ def op_setitem(rng, inp, malformed=False, via_series=False, force_multi=False, f
     seq_as_scalar = False
     vkind = rng.choice(["row", "row", "rows", "rows", "nea"])
     ragged = (malformed and rng.random() < 0.6) or force_ragged
+    if ragged and not force_ragged and rng.random() < 0.4:
+        vkind = "nea"          # the ragged row inside a raw Arrow (chunked) struct array
     if force_ragged:
         # a VALID key over at least one target and the right number of values: only the raggedness of one offered row is wrong
-        vkind = rng.choice(["row", "rows"])
+        vkind = rng.choice(["row", "rows", "nea", "nea"])
         if not targets:
             kind = "int"
             z = rng.randint(-n, n - 1) if n else 0
@@ -628,10 +638,20 @@ def op_setitem(rng, inp, malformed=False, via_series=False, force_multi=False, f
         if raw_hidden and ts:
             ts[rng.randrange(len(ts))] = None          # at least one missing entry (which will hide elements)
         lrows = [table_to_lrow(schema, t) for t in ts]
-        if vkind == "nea" and not ragged:
+        if vkind == "nea" and ragged:
+            # a raw Arrow struct array / chunked array holding a ragged row (Arrow itself does not mind): refused like any other value
+            st = gen.struct_type(schema)
+            whole = pa.array([None if t is None else t for t in ts], type=st)
+            cut = rng.randint(0, len(ts))
+            value = rng.choice([whole, pa.chunked_array([whole]), pa.chunked_array([whole]), pa.chunked_array([whole.slice(0, cut), whole.slice(cut)], type=st)])
+            nls = [False] * len(ts)
+        elif vkind == "nea" and not ragged:
             st = gen.struct_type(schema)
             if not raw_hidden:
                 value = NEA(pa.array([None if t is None else t for t in ts], type=st))
+                if rng.random() < 0.35:
+                    value = value.chunked_array if rng.random() < 0.5 else pa.chunked_array(
+                        [value.chunked_array.chunk(0).slice(0, len(ts) // 2), value.chunked_array.chunk(0).slice(len(ts) // 2)], type=st)
             else:
                 # a raw Arrow struct array whose MISSING entries still span elements of the value buffers
                 arrays_ = [pa.array([(t[nm] if t is not None else [v_ for v_ in (gen.gen_value(rng, ty_, 0) for _ in range(2))]) for t in ts],
@@ -648,7 +668,7 @@ def op_setitem(rng, inp, malformed=False, via_series=False, force_multi=False, f
             for t in ts:
                 value.append(table_to_value(rng, schema, t))
                 nls.append(numpy_like_form(LAST_FORM[0]))
-        if not isinstance(value, NEA) and not any(isinstance(v, pd.DataFrame) for v in value):
+        if not isinstance(value, (NEA, pa.Array, pa.ChunkedArray)) and not any(isinstance(v, pd.DataFrame) for v in value):
             # a sequence without tables is first offered to Arrow AS A WHOLE (pa.array(seq, type), no from_pandas): when that
             # works NaN stays a value in every element; only when it fails are the elements converted one by one
             bulk = attempt(lambda: pa.array(value, type=gen.struct_type(schema)))
@@ -661,7 +681,7 @@ def op_setitem(rng, inp, malformed=False, via_series=False, force_multi=False, f
         # pa.array(value, type=struct) accepts an EMPTY DataFrame element as a struct with null fields
         # (a non-empty one makes it fail and the library falls back to boxing row by row), and an
         # empty sequence boxes as one struct scalar: known finding KF-setitem-sequence-as-scalar
-        seq = list(value) if not isinstance(value, NEA) else None
+        seq = list(value) if not isinstance(value, (NEA, pa.Array, pa.ChunkedArray)) else None
         seq_as_scalar = m == 0 or seq is not None and (
             len(seq) == 0 or (all(v is None or v is pd.NA or (isinstance(v, pd.DataFrame) and len(v) == 0) for v in seq)
                               and any(isinstance(v, pd.DataFrame) for v in seq)))
